@@ -31,17 +31,19 @@ theorem init_ok (n : Nat) (fund : Int) (a b c : Dec) (r0 r1 : Bytes) (ch : List 
     * the order's (ghost) `withBf` says whether the packet is a received one,
     * the order's recipient is the packet's original transfer target (`orig`, or `target` while the
       packet has not been redirected),
-    * the order carries a fulfiller iff the packet has been redirected. -/
+    * the order carries a fulfiller iff the packet has been redirected,
+    * the packet is not one the packet-forward middleware sent (`fwd = none`): the history-level form of
+      `forwarded_gets_no_order`, which removes the `p.fwd = none` proviso of `finalize_pays_fulfiller`. -/
 theorem order_linked_x (s0 : St) (h0 : InvAll s0) (ops : List Op) (hb : ∀ o ∈ ops, BoundedOp o) :
     ∀ o ∈ (run s0 ops).orders, o.status = .pending →
       ∃ p, getPacket (run s0 ops) o.trackingKey = some p ∧ p.status = o.status ∧ pendKeyOf p = o.id ∧
         o.amount = p.amount ∧ o.withBf = (p.ptype == .onRecv) ∧ o.recipient = p.orig.getD p.target ∧
-        (o.fulfiller.isSome ↔ p.orig.isSome) := by
+        (o.fulfiller.isSome ↔ p.orig.isSome) ∧ p.fwd = none := by
   intro o ho hs
   have h := invAll_run ops hb h0
   obtain ⟨p, hp, hl⟩ := h.x o ho hs
   refine ⟨p, hl.key ▸ getPacket_of_mem (InvF.keys h.i4) hp, hl.pend.trans hs.symm, ?_, hl.amount, hl.withBf,
-    hl.recipient, hl.fulfiller⟩
+    hl.recipient, hl.fulfiller, hl.nofwd⟩
   rw [pendKeyOf_of_pending hl.pend]; exact hl.id
 
 /-- **price_identity_real_amount** — in every reachable state, for every pending order:
@@ -103,16 +105,17 @@ theorem fulfil_at_most_once_run (s0 : St) (h0 : InvAll s0) (ops : List Op) (hb :
 /-- **finalize_pays_fulfiller_run** — finalization of the packet of a fulfilled order in a reachable
     state: the packet names the party the fulfilment redirected it to and remembers the order's
     recipient as its original target; what is released is the packet's whole amount, which is the
-    order's price + fee (+ bridging fee for a received packet); and (for a packet that is not a
-    packet-forward) no balance other than that target's and the channel escrow's changes — in
-    particular the order's recipient, paid at fulfilment, receives nothing more. -/
+    order's price + fee (+ bridging fee for a received packet); the packet is not a packet-forward
+    (proved, no longer a proviso); and no balance other than that target's and the channel escrow's
+    changes — in particular the order's recipient, paid at fulfilment, receives nothing more. -/
 theorem finalize_pays_fulfiller_run (s0 : St) (h0 : InvAll s0) (ops : List Op) (hb : ∀ o ∈ ops, BoundedOp o)
     {k : Bytes} {o : Order} {s' : St}
     (ho : getOrder (run s0 ops) .pending k = some o) (hf : o.fulfiller.isSome = true)
     (hfin : finalizePacket (run s0 ops) k = .ok s') :
     ∃ p, getPacket (run s0 ops) k = some p ∧ p.orig = some o.recipient ∧
       o.price + o.fee + (if p.ptype == .onRecv then bridgingFeeOf (run s0 ops) p.amount else 0) = p.amount ∧
-      (p.fwd = none → ∀ a' d', a' ≠ p.target → a' ≠ escrowAcct p.chan →
+      p.fwd = none ∧
+      (∀ a' d', a' ≠ p.target → a' ≠ escrowAcct p.chan →
         getBal s'.bal a' d' = getBal (run s0 ops).bal a' d') := by
   obtain ⟨p, hp, hfu, _⟩ := fulfil_at_most_once_run s0 h0 ops hb ho
   obtain ⟨hm, hs, _⟩ := getOrder_some ho
@@ -126,8 +129,9 @@ theorem finalize_pays_fulfiller_run (s0 : St) (h0 : InvAll s0) (ops : List Op) (
   have e1 : p1 = p := Option.some.inj (hp1.symm.trans hp)
   rw [e1] at hpr
   rw [e3] at hbal
-  refine ⟨p, hp, (hfu hf).1, hpr, ?_⟩
-  intro hfw a' d' h1 h2
+  have hfw : p.fwd = none := e2 ▸ hl.nofwd
+  refine ⟨p, hp, (hfu hf).1, hpr, hfw, ?_⟩
+  intro a' d' h1 h2
   exact hbal a' d' h1 h2 (fun r hr => by rw [hfw] at hr; cases hr)
 
 -- ================================================================== a fulfilled order is frozen
